@@ -1888,6 +1888,76 @@ def rule_refresh_unconditional(chk):
     chk.floor('per-array rebuild loops', n, 3)
 
 
+def rule_tables_emptied(chk):
+    """a look-up table that binning fills with a call that only ever *adds* (`insert` of a C++ map - which keeps an existing entry -, `add` of a hash table) is created anew,
+    or cleared, by _refresh on every update: entries of cells that were occupied at an earlier update otherwise survive (with their old ranges) next to the new ones.
+    The table is traced from the adding call back to the attribute it lives in (through parameters and locals)."""
+    n = 0
+    for p_ in sorted(glob.glob(os.path.join(REPO, 'pysph/base/*_nnps.pyx'))):
+        if 'gpu' in p_:
+            continue
+        rel = os.path.relpath(p_, REPO)
+        for cls in M.classes(M.cy(rel)):
+            meths = M.methods(cls)
+            rf = meths.get('_refresh')
+            if rf is None:
+                continue
+            grown = {}
+            for mname, fn in meths.items():
+                params = M.arg_names(fn)
+                ldefs = N.local_defs([fn])
+                for c in M.calls(fn):
+                    if not (isinstance(c.func, ast.Attribute) and c.func.attr in ('insert', 'add')):
+                        continue
+                    recv = N.inline(c.func.value, ldefs)
+                    roots = [recv]
+                    if isinstance(recv, ast.Name) and recv.id in params:
+                        # a table handed in: what the callers inside the class pass at that position
+                        k = params.index(recv.id) - (1 if params and params[0] == 'self' else 0)
+                        roots = []
+                        for m2, f2 in meths.items():
+                            ld2 = N.local_defs([f2])
+                            for c2 in M.calls(f2):
+                                if M.call_name(c2) == 'self.' + mname and len(c2.args) > k:
+                                    roots.append(N.inline(c2.args[k], ld2))
+                    for r_ in roots:
+                        base = r_
+                        while isinstance(base, ast.Subscript):
+                            base = base.value
+                        if isinstance(base, ast.Attribute) and isinstance(base.value, ast.Name) and base.value.id == 'self':
+                            grown.setdefault(base.attr, (c, mname))
+            for attr, (c, mname) in sorted(grown.items()):
+                n += 1
+                fresh = False
+                rdefs = N.local_defs([rf])
+
+                def root(e_):
+                    # the attribute a (possibly aliased, possibly subscripted) expression of _refresh lives in
+                    for _k in range(6):
+                        while isinstance(e_, ast.Subscript):
+                            e_ = e_.value
+                        if isinstance(e_, ast.Name) and e_.id in rdefs:
+                            e_ = rdefs[e_.id]
+                        else:
+                            break
+                    return e_
+                for a in ast.walk(rf):
+                    if isinstance(a, ast.Assign):
+                        b_ = root(a.targets[0])
+                        if compact(b_) == 'self.' + attr and isinstance(a.value, ast.Call):
+                            cn = M.call_name(a.value) or ''
+                            if cn.startswith('__new__') or cn[:1].isupper() or cn in ('dict', 'list', 'set'):
+                                fresh = True
+                    if isinstance(a, ast.Call) and isinstance(a.func, ast.Attribute) and a.func.attr in ('clear', 'reset'):
+                        if compact(root(a.func.value)) == 'self.' + attr:
+                            fresh = True
+                chk.decide(fresh, 'results-not-stale', '%s._refresh:%s-emptied' % (cls.name, attr), node=rf, file=rel, func='%s._refresh' % cls.name,
+                           detail_bad='%s.%s adds to self.%s with `%s`, which never removes or replaces an entry, but _refresh does not create that table anew (or clear it): after the second '
+                                      'update the cells occupied earlier are still listed, with their old ranges, and queries return wrong neighbours' % (cls.name, mname, attr, compact(c)[:50]),
+                           detail_ok='self.%s is created anew / cleared by _refresh' % attr)
+    chk.floor('tables filled by adding calls', n, 3)
+
+
 def rule_sorted_on_every_refill(chk):
     """the classes that search a key-sorted table (Z-order, stratified space-filling curve, cell indexing) sort the keys every time the table is filled - the sort in
     fill_array is under no condition (an "already in order" flag set by the re-ordering is wrong as soon as align_particles moves real particles in front of ghosts, or the
@@ -2343,6 +2413,7 @@ def main(chk):
     rule_bounds(chk)
     rule_bins_all(chk)
     rule_distinct_containers(chk)
+    rule_tables_emptied(chk)
     rule_valid_cell(chk)
     rule_level_cell_size(chk)
     rule_narrowing(chk)
